@@ -278,3 +278,24 @@ PROPS["C39"] = {
         "thorough": {"groups": [{"filters": ["c39_q_", "c39_t_"], "timeout": 1800, "jobs": 10}], "bounds": "adds Int32/Double, Byte/UInt16 and the remaining NULL placements of And/Or"},
     },
 }
+
+PROPS["C09"] = {
+    "module": "c09_receive",
+    "level": MC,
+    "technique": "Kani/CBMC symbolic execution of SecureChannel::verify_and_remove_security over all N-byte MSG/OPN chunks (message type and declared size concrete per instance) on established channels, OpenSSL cut below the opcua wrappers; Kani's panic/overflow/index checks",
+    "kernels": ["SecureChannel::verify_and_remove_security(_forensic)", "MessageChunkHeader::decode", "SymmetricSecurityHeader::decode", "AsymmetricSecurityHeader::decode", "SecureChannel::symmetric_decrypt_and_verify",
+                "SecurityPolicy::symmetric_verify_signature / symmetric_decrypt / symmetric_signature_size / from_uri", "hash::verify_hmac_sha1/sha256", "AesKey::decrypt / validate_aes_args", "SecureChannel::update_message_size_and_truncate"],
+    "explanation": "A chunk of N bytes whose bytes are all symbolic except the 3 message-type bytes and the declared size (concrete, equal to / below / above N) is given to verify_and_remove_security on an established server channel "
+                   "(policy Basic128Rsa15 or Basic256Sha256; mode None, Sign, SignAndEncrypt). HMAC is a constant stand-in and openssl::memcmp::eq returns an ARBITRARY result, so both the rejected and the 'verified' continuation are explored; the AES cipher handle is "
+                   "fabricated and Crypter::new fails, so the decrypt wrapper's own argument validation runs. Asserted: no panic, overflow or out-of-range slice anywhere on the path. Thorough: an OPN chunk naming a real policy with a null certificate must be an error; a rejected OPN must not leave the channel in a state in which the next MSG chunk panics.",
+    "outside": "asymmetric decrypt/verify and padding verification (X509/RSA are FFI; the OPN harness ends at certificate parsing); what real AES/HMAC compute; chunk sizes other than the listed N; C07 (round trip) and C08 (tamper rejection), which need real MACs; "
+               "the harnesses need `#[kani::unwind(2)]` + `--unwindset memcmp.0:60` because dropping an io::Error dispatches through `dyn Error` drop glue that CBMC unwinds for every candidate type to the full bound (unwind 22: no verdict; unwind 2: 6-10 min, ~20 GB)",
+    "assumptions": ["hash::hmac_vec -> constant digest; MessageDigest::sha1/sha256 -> tagged handles; openssl::memcmp::eq -> arbitrary bool (after checking equal lengths); Cipher::aes_*_cbc -> fabricated handle; Cipher::block_size -> 16; Crypter::new -> Err",
+                    "String::from_utf8 -> unchecked (the only string on the path is the ASCII policy URI)", "alloc::fmt::format returns an empty String", "chrono::Utc::now returns a fixed instant"],
+    "tiers": {
+        "quick": {"groups": [{"filters": ["c09_q_"], "timeout": 1800, "jobs": 2, "mem_gb": 30, "cbmc_args": ["--unwindset", "memcmp.0:60"]}],
+                  "bounds": "N = 16 (Sign, shorter than a signature), 37 (SignAndEncrypt, ragged ciphertext), 20 (mode None), 48 with declared size 44 (Sign); unwind 2 (+ memcmp 60)"},
+        "thorough": {"groups": [{"filters": ["c09_q_", "c09_t_"], "timeout": 2400, "jobs": 2, "mem_gb": 30, "cbmc_args": ["--unwindset", "memcmp.0:60"]}],
+                     "bounds": "adds N = 30, 24, 60, 44/48, 16 (empty ciphertext), 48 (SHA-256, SignAndEncrypt), the OPN null-certificate chunk (89 bytes) and the two-step OPN/MSG history"},
+    },
+}
